@@ -257,6 +257,11 @@ func forwarded(u *ssa.UnOp) ssa.Value {
 					return nil
 				}
 			case *ssa.UnOp:
+			case *ssa.MakeClosure:
+				// a variable captured by a function literal that only reads it keeps its single definition
+				if !closureOnlyReads(r, a, 0) {
+					return nil
+				}
 			default:
 				return nil
 			}
@@ -282,6 +287,40 @@ func forwarded(u *ssa.UnOp) ssa.Value {
 		return st.Val
 	}
 	return nil
+}
+
+// closureOnlyReads: the function literal bound by mc only loads from the captured variable cell (no store, no hand-over of
+// the cell's address except to nested literals of which the same holds).
+func closureOnlyReads(mc *ssa.MakeClosure, cell ssa.Value, depth int) bool {
+	fn, _ := mc.Fn.(*ssa.Function)
+	if fn == nil || depth > 3 {
+		return false
+	}
+	for i, b := range mc.Bindings {
+		if b != cell {
+			continue
+		}
+		if i >= len(fn.FreeVars) {
+			return false
+		}
+		fv := fn.FreeVars[i]
+		if fv.Referrers() == nil {
+			continue
+		}
+		for _, r := range *fv.Referrers() {
+			switch x := r.(type) {
+			case *ssa.UnOp:
+			case *ssa.MakeClosure:
+				if !closureOnlyReads(x, fv, depth+1) {
+					return false
+				}
+			case *ssa.DebugRef:
+			default:
+				return false
+			}
+		}
+	}
+	return true
 }
 
 // freshObjectCall: a call to a module function every return of which yields an object allocated in that function.
@@ -1328,7 +1367,11 @@ func (e *Env) sliceInduction(phi *ssa.Phi) (ssa.Value, LE, bool) {
 		adv := e.LE(cnt).addK(-k0).scale(c)
 		return init, adv, true
 	}
-	return nil, LE{}, false
+	// no counter in the loop (`for rest := xs; len(rest) > 0; rest = rest[c:]`): the number of completed iterations is an
+	// unknown non-negative integer of its own
+	it := "iter(" + e.opaque(phi) + ")"
+	atomUnsigned[it] = true
+	return init, leAtom(it).scale(c), true
 }
 
 // innerHigh: the upper bound (in the base slice's indices) of an enclosing re-slice, as a string; "" if open.
@@ -1903,6 +1946,9 @@ type Fact struct {
 	// disjunction: one of the alternatives (each a conjunction) holds; produced for a materialised `a || b` / `a && b`
 	// value tested by a separate If (switch cases, named conditions)
 	Or [][]Fact
+	// for a literal zero(d) / !zero(d): the linear form d (a disequality combines with bounds: d >= 0 and d != 0 give d >= 1)
+	zle  LE
+	hasZ bool
 }
 
 // sat: pred accepts the fact; a disjunction is accepted when every alternative contains an accepted fact.
@@ -2206,10 +2252,10 @@ func (e *Env) decode0(c ssa.Value, truth bool, why string) []Fact {
 			case token.LSS:
 				return []Fact{mk(y.minus(x).addK(-1))}
 			case token.EQL:
-				return []Fact{mk(x.minus(y)), mk(y.minus(x)), {Atom: "zero(" + canonDiff(x.minus(y)) + ")", Pos: true, Why: why, big: big}}
+				return []Fact{mk(x.minus(y)), mk(y.minus(x)), {Atom: "zero(" + canonDiff(x.minus(y)) + ")", Pos: true, Why: why, big: big, zle: x.minus(y), hasZ: true}}
 			case token.NEQ:
 				d := x.minus(y)
-				out := []Fact{{Atom: "zero(" + canonDiff(d) + ")", Pos: false, Why: why, big: big}}
+				out := []Fact{{Atom: "zero(" + canonDiff(d) + ")", Pos: false, Why: why, big: big, zle: d, hasZ: true}}
 				if nonNegLE(d) { // non-negative and not 0  =>  >= 1
 					out = append(out, mk(d.addK(-1)))
 				} else if nonNegLE(d.scale(-1)) {
@@ -2711,6 +2757,17 @@ func (e *Env) calleeSuccessFacts(call *ssa.Call, why string) []Fact {
 		return nil
 	}
 	assume := e.factsAt(call.Block(), call, nil)
+	// what the callers of this function knew when they called it (facts about parameters and the input only: nothing that
+	// names a value of an intermediate function)
+	for x := e; x.Parent != nil && x.Call != nil; x = x.Parent {
+		if ci, ok := x.Call.(ssa.Instruction); ok && ci.Parent() == x.Parent.Fn {
+			for _, f := range x.Parent.factsAt(ci.Block(), ci, nil) {
+				if len(f.Or) == 0 && !strings.Contains(f.Key(), "#") {
+					assume = append(assume, f)
+				}
+			}
+		}
+	}
 	sub := e.Sub(call, callee)
 	fs := sub.returnFactsA(isSuccessReturn, why+" via "+callee.Name(), assume)
 	out := sub.rewriteResults(call, fs)
@@ -3073,6 +3130,7 @@ func (e *Env) resultFacts(r *ssa.Return, m map[string]Fact) {
 					g.LE = renameLE(g.LE, rt, fmt.Sprintf("ret#%d", i))
 				} else {
 					g.Atom = strings.ReplaceAll(g.Atom, rt, fmt.Sprintf("ret#%d", i))
+					g.hasZ = false
 				}
 				m[g.Key()] = g
 			}
@@ -3168,6 +3226,9 @@ func (sub *Env) rewriteResults(call *ssa.Call, fs []Fact) []Fact {
 			if g.Lin {
 				g.LE = renameLE(g.LE, tag, res[i])
 			} else {
+				if strings.Contains(g.Atom, tag) {
+					g.hasZ = false
+				}
 				g.Atom = strings.ReplaceAll(g.Atom, tag, res[i])
 			}
 		}
@@ -3619,9 +3680,12 @@ func (e *Env) HoldsLit(at ssa.Instruction, atom string, pos bool, assume []Fact)
 // LinFactsAt: linear facts at instruction `at`, including inductive lower bounds of loop φ's.
 func (e *Env) LinFactsAt(at ssa.Instruction, assume []Fact) []Fact {
 	var out []Fact
+	var diseq []Fact
 	for _, f := range e.factsAt(at.Block(), at, assume) {
 		if f.Lin {
 			out = append(out, f)
+		} else if !f.Pos && f.hasZ {
+			diseq = append(diseq, f)
 		}
 	}
 	out = append(out, e.phiFacts()...)
@@ -3629,6 +3693,28 @@ func (e *Env) LinFactsAt(at ssa.Instruction, assume []Fact) []Fact {
 	for _, a := range assume {
 		if a.Lin {
 			out = append(out, a)
+		}
+	}
+	// disequalities sharpen bounds (`switch len(x) { case 0: … case 1: … default: x[1] }`): d != 0 with d >= 0 known gives
+	// d >= 1; repeated, because one sharpening enables the next
+	done := map[int]bool{}
+	for round := 0; round < 4 && len(diseq) > 0; round++ {
+		changed := false
+		for i, f := range diseq {
+			if done[i] {
+				continue
+			}
+			switch {
+			case Proves(out, f.zle):
+				out = append(out, Fact{Lin: true, LE: f.zle.addK(-1), Why: f.Why + " (not zero and not negative)", big: f.big})
+				done[i], changed = true, true
+			case Proves(out, f.zle.scale(-1)):
+				out = append(out, Fact{Lin: true, LE: f.zle.scale(-1).addK(-1), Why: f.Why + " (not zero and not positive)", big: f.big})
+				done[i], changed = true, true
+			}
+		}
+		if !changed {
+			break
 		}
 	}
 	return out
